@@ -228,7 +228,7 @@ func Run(t *simkit.Tape, o *simkit.Outcome, full bool) {
 	ownNSBefore := map[string]string{"p": "urn:a", "q": "urn:b"}
 
 	// tasks and their scripts; expected results from isolated worlds
-	nt := 2 + t.Pick(4, 2, 1)
+	nt := []int{2, 3, 4, 6, 8}[t.Pick(16, 8, 4, 1, 1)] // "any number of goroutines"
 	tasks := make([][]*op, nt)
 	for ti := range tasks {
 		nops := 1 + t.Draw(5)
